@@ -46,6 +46,7 @@ structure HSlot (c : Cfg F G) (i j : Nat) (R : Nat → Prop) (v : Verifier F G) 
   hlong : v.long = c.longs.getD i 0
   hindex : v.index = i
   hagg : ∃ a, v.agg = some a ∧ HAgg c j R a ∧ a.deal = some (c.deal j i) ∧ a.dealer = v.dealer
+  happ : v.approved = true
 
 /-- the generator of member `i` in the honest run: slots exactly for the dealers in `D`, slot `j`
 holding approvals exactly from `R j`; the own dealer's aggregator holding approvals from `RD` -/
@@ -140,7 +141,7 @@ theorem pe_genuine (c : Cfg F G) (ephs : List (List F)) (hw : WellFormed c ephs)
     (hseal : sealDeal c.g (c.longs.getD j 0) c.pubs i eph rnd (.deal (c.deal j i)) = some e)
     (v : Verifier F G) (hv : v.agg = none) (hvd : v.dealer = (c.longs.getD j 0) • c.g) (hvv : v.vs = c.pubs)
     (hvl : v.long = c.longs.getD i 0) (hvi : v.index = i) :
-    ∃ a, processEncryptedDeal c.g v e 0 = ({ v with agg := some a }, .ok (c.resp j i 0)) ∧
+    ∃ a, processEncryptedDeal c.g v e 0 = ({ v with agg := some a, approved := true }, .ok (c.resp j i 0)) ∧
       HAgg c j (fun x => x = i) a ∧ a.deal = some (c.deal j i) ∧ a.dealer = v.dealer := by
   have hidx : v.index < v.vs.length := by rw [hvi, hvv, c.pubs_length]; exact hi
   have hdec : decryptDeal c.g v e = .ok (c.deal j i) :=
@@ -180,7 +181,7 @@ theorem pe_genuine (c : Cfg F G) (ephs : List (List F)) (hw : WellFormed c ephs)
 /-- the dealer's unsigned auto-approval on top of the own approval -/
 theorem unsafeSet_genuine (c : Cfg F G) (i j : Nat) (hj : j < c.n) (v : Verifier F G) (a : Agg F G)
     (ha : HAgg c j (fun x => x = i) a) :
-    ∃ a', (({ v with agg := some a } : Verifier F G).unsafeSetResponse j true).agg = some a' ∧
+    ∃ a', (({ v with agg := some a, approved := true } : Verifier F G).unsafeSetResponse j true).agg = some a' ∧
       HAgg c j (fun x => x = i ∨ x = j) a' ∧ a'.deal = a.deal ∧ a'.dealer = a.dealer := by
   unfold Verifier.unsafeSetResponse
   simp only
@@ -215,7 +216,7 @@ theorem unsafeSet_genuine (c : Cfg F G) (i j : Nat) (hj : j < c.n) (v : Verifier
       exact ha.hout k (fun h => hk (Or.inl h))
 
 /-- the verifier `ProcessDeal` creates for a dealer key -/
-def freshVer (g : G) (d : Gen F G) (pub : G) (i : Nat) : Verifier F G := ⟨d.long, d.long • g, pub, i, d.participants, none⟩
+def freshVer (g : G) (d : Gen F G) (pub : G) (i : Nat) : Verifier F G := ⟨d.long, d.long • g, pub, i, d.participants, none, false⟩
 
 /-- **a genuine deal that has not been processed yet is processed without error and approved** -/
 theorem processDeal_genuine_ok (c : Cfg F G) (ephs : List (List F)) (hw : WellFormed c ephs) (i : Nat) (hi : i < c.n)
@@ -234,8 +235,9 @@ theorem processDeal_genuine_ok (c : Cfg F G) (ephs : List (List F)) (hw : WellFo
     (freshVer c.g d ((c.longs.getD j 0) • c.g) i) rfl rfl hd.hpart hd.hlong rfl
   obtain ⟨a', hu, hagg', hdeal', hadl'⟩ := unsafeSet_genuine c i j hj
     (freshVer c.g d ((c.longs.getD j 0) • c.g) i) a hagg
-  have hwf := unsafeSet_frame ({ freshVer c.g d ((c.longs.getD j 0) • c.g) i with agg := some a } : Verifier F G) j
-  generalize hw' : ({ freshVer c.g d ((c.longs.getD j 0) • c.g) i with agg := some a } : Verifier F G).unsafeSetResponse j true = w at hu hwf
+  have hwf := unsafeSet_frame ({ freshVer c.g d ((c.longs.getD j 0) • c.g) i with agg := some a, approved := true } : Verifier F G) j
+  have hwa := unsafeSet_approved ({ freshVer c.g d ((c.longs.getD j 0) • c.g) i with agg := some a, approved := true } : Verifier F G) j
+  generalize hw' : ({ freshVer c.g d ((c.longs.getD j 0) • c.g) i with agg := some a, approved := true } : Verifier F G).unsafeSetResponse j true = w at hu hwf hwa
   have hres : processDeal c.g d ⟨j, some e⟩ = (setVerifier d j w, .ok ⟨j, some (c.resp j i 0)⟩) := by
     simp only [processDeal, hpub, hnone, Option.isSome_none, Bool.false_eq_true, if_false, hnv, hpe, hw']
   rw [hres]
@@ -251,7 +253,7 @@ theorem processDeal_genuine_ok (c : Cfg F G) (ephs : List (List F)) (hw : WellFo
     · subst hjx
       simp only [if_true]
       refine ⟨w, rfl, ⟨hwf.1, by rw [hwf.2.1]; exact hd.hpart, by rw [hwf.2.2.1]; exact hd.hlong,
-        hwf.2.2.2, ⟨a', hu, hagg', by rw [hdeal', hdeal], by rw [hadl', hadl, hwf.1]⟩⟩⟩
+        hwf.2.2.2, ⟨a', hu, hagg', by rw [hdeal', hdeal], by rw [hadl', hadl, hwf.1]⟩, hwa⟩⟩
     · simp only [hjx, if_false]
       have hDx : D x := by rcases hx with hx | hx; exact hx; exact absurd hx.symm hjx
       obtain ⟨v, hv, hs⟩ := hd.hslot x hDx
@@ -277,7 +279,7 @@ theorem processResponse_genuine_ok (c : Cfg F G) (i : Nat) (D : Nat → Prop) (R
   have hjv : j < d.verifiers.length := by rw [hd.hlen]; exact hj
   -- the slot `j` after the step, and the generator with it
   have hslot' : HSlot c i j (fun y => R j y ∨ y = k) ({ v with agg := some a' } : Verifier F G) :=
-    ⟨hs.hdealer, hs.hvs, hs.hlong, hs.hindex, ⟨a', rfl, hha', by rw [hdeal', hdeal], by rw [hadl', hadl]⟩⟩
+    ⟨hs.hdealer, hs.hvs, hs.hlong, hs.hindex, ⟨a', rfl, hha', by rw [hdeal', hdeal], by rw [hadl', hadl]⟩, hs.happ⟩
   have hstate : ∀ (dl : Dealer F G) (RD' : Nat → Prop), HAgg c i RD' dl.agg → dl.agg.dealer = (c.longs.getD i 0) • c.g →
       HState c i D (fun x y => if x = j then (R x y ∨ y = k) else R x y) RD'
         { setVerifier d j { v with agg := some a' } with dealer := dl } := by
@@ -402,8 +404,8 @@ theorem distKeyShare_full (c : Cfg F G) (ephs : List (List F)) (hw : WellFormed 
     obtain ⟨v, hv, hs⟩ := hd.hslot j (hD j hj)
     obtain ⟨a, hagg, hha, hdeal, _⟩ := hs.hagg
     obtain ⟨hc, he⟩ := hagg_full_certified c hn j (R j) a hha (fun k hk => hR j k hj hk)
-    refine ⟨v, hv, by simp [Verifier.dealCertified, hagg, hc], ?_⟩
-    simp [Verifier.dealOut, hagg, hc, he, hdeal]
+    refine ⟨v, hv, by simp [Verifier.dealCertified, hagg, hc, hs.happ], ?_⟩
+    simp [Verifier.dealOut, hagg, hc, he, hdeal, hs.happ]
   have hcert : certified d = true := by
     unfold certified qual
     simp only [decide_eq_true_eq, hd.hlen, hd.hpart, c.pubs_length]
